@@ -53,6 +53,23 @@ CLAIMED = {
        "assignments is checked in the bounded tier only; torch-backed priors delegate to torch.distributions (assumed); LKJ priors are "
        "covered by the bounded tier only.",
   technique="contract-based deductive verification: AST-extracted real functions, symbolic execution, modular callee contracts, z3 + sympy CAS for exp/log identities"),
+ "C12": dict(
+  category="other",
+  text="Proof tier (counted): likelihood objects are built by their real constructors (symbolically executed) and every entry point is run "
+       "on symbolic function distributions with symbolic n, t, batch sizes and arbitrary noise parameters; z3 discharges, entry by entry, "
+       "marginal(N(m,C)) = N(m, C + R) with R = sigma^2 I (all four likelihood/distribution batch patterns), diag(fixed noise raised to "
+       "min_fixed_noise), diag(call-time noise) in place of the stored noise, [+ learned sigma^2 I], the documented no-op with warning on size "
+       "mismatch, and I_n (x) (D_t [+ sigma^2 I]) in the layout of the input for the multitask likelihood (rank 0 and rank > 0, global/task noise "
+       "switches) -- 'added once' is the equality itself; forward = Normal(f, sqrt(diag R)); expected_log_prob and log_marginal equal their "
+       "elementwise closed forms for the homoskedastic and fixed-noise likelihoods (all three entry points use the same R); LikelihoodList "
+       "calls member i with its own positional arguments and noise_i by keyword. Bounded tier (not counted): dense float64 sweep on real "
+       "objects, Monte-Carlo check that expected_log_prob is the stated expectation.",
+  design_ref="DESIGN.md section 5, C12",
+  note="Trusted: dense meaning of Diag/ConstantDiag/KroneckerProduct(Diag)/Root/Zero linear operators and of torch.distributions.Normal; "
+       "reals for floats; the Gaussian second-moment identity E[(y-f)^2] = (y-m)^2 + v that turns the closed form into the stated expectation "
+       "is cited (checked by Monte Carlo in the bounded tier), not mechanised; HeteroskedasticNoise and DirichletClassificationLikelihood "
+       "are not under contract; batch ranks <= 1 enumerated.",
+  technique="contract-based deductive verification: AST-extracted real functions (constructors included), symbolic execution with an elementwise tensor domain, z3 + sympy CAS"),
 }
 REASON_NOT_BUILT = "contracts for this property are not built yet in this revision (see DESIGN.md section 9 build order); not claimed until its obligations are discharged by the checker"
 
